@@ -1020,7 +1020,12 @@ class CAMTransmissionManagement:
         )
         self.btp_router.btp_data_request(request)
         if self.ca_basic_service_ldm is not None:
-            self.ca_basic_service_ldm.add_provider_data_to_ldm(cam.cam)
+            # The CAM has been handed to the lower layer: a failure to store it
+            # in the own LDM must not make it count as "not sent".
+            try:
+                self.ca_basic_service_ldm.add_provider_data_to_ldm(cam.cam)
+            except Exception:
+                self.logging.exception("Own CAM could not be added to the LDM")
         self.logging.info(
             "Sent CAM: generationDeltaTime=%d, stationId=%d",
             cam.cam["cam"]["generationDeltaTime"],
